@@ -86,6 +86,31 @@ def run(tier):
             if pd != cpp['dpieces']:
                 j = next((i for i in range(min(len(pd), len(cpp['dpieces']))) if pd[i] != cpp['dpieces'][i]), min(len(pd), len(cpp['dpieces'])))
                 chk.violation('python-vs-cpp:%s' % n, 'ZoneSpecifier and ExtendedZoneProcessor differ at piece %d: python %s, C++ %s' % (j, pd[j] if j < len(pd) else None, cpp['dpieces'][j] if j < len(cpp['dpieces']) else None), {'zone': n})
+    # the two days either side of the range: the C++ processor accepts the UTC years 1999 and 2050 (local dates of 2000 east
+    # and of 2049 west of Greenwich): both implementations must still agree there
+    ntail = 0
+    for a, b, tag in ((tzconf.T1, tzconf.T1 + 86400, '2050-01-01'), (-86400, 0, '1999-12-31')):
+        impl2, crashes2 = tzconf.scan_db(scan, 'extended', len(idx), 300, 0, t0=a, t1=b)
+        for c in crashes2:
+            chk.violation('cpp:crash:%s' % tag, 'C++ sweep of %s crashed: %s' % (tag, c[3],), {})
+        py2, err = run_py(dict(data, range=[a, b], all_options=False), work, 'instants', 'tail' + tag)
+        if py2 is None:
+            chk.violation('python:crash:%s' % tag, 'ZoneSpecifier driver failed on %s: %s' % (tag, err), {'stderr': err})
+            continue
+        for n in names:
+            cpp = impl2.get(n)
+            ps = (py2['pieces'].get(n) or {}).get('14-1-1')
+            if not cpp or ps is None:
+                continue
+            pd = []
+            for t, o in ps:
+                rec = [t // 86400, t % 86400] + (list(o) if len(o) == 3 else [999999, 0, str(o)])
+                if not pd or pd[-1][2:] != rec[2:]:
+                    pd.append(rec)
+            ntail += 1
+            if pd != cpp['dpieces']:
+                chk.violation('python-vs-cpp:%s:%s' % (tag, n), 'on %s UTC ZoneSpecifier answers %s, ExtendedZoneProcessor %s' % (tag, pd[:3], cpp['dpieces'][:3]), {'zone': n, 'day': tag})
+    chk.add(zones_compared_on_boundary_days=ntail)
     # TLC judges the Python trace (the C++ trace of the same tables is judged in C01)
     lines, _links = dbsource.reconstruct(os.path.join(common.REPO, 'src/ace_time/zonedbx'))
     r, njudged, bad = compiler.judge(chk, 'zonedbx:python', lines, names, pypieces, work, 2000, 2050)
